@@ -255,6 +255,7 @@ struct OBox : IOpt
                     {
                         auto *mp = new SM();
                         mp->gain = reg.smap_gain.at(id);
+                        mp->pin = reg.smap_pin.count(id) ? reg.smap_pin.at(id) : -1;
                         reg.smaps[key] = std::shared_ptr<void>(mp, [](void *p)
                                                                { delete static_cast<SM *>(p); });
                         reg.smap_setters[key] = [mp](double g)
